@@ -125,6 +125,16 @@ func AppHashFor(b *types.Block) []byte {
 	return hash.DoHash(append([]byte("app:"), b.Hash()...))
 }
 
+// ReceiptsHashFor: the toy application produces receipts for the blocks of odd heights only, so
+// that a chain alternates between a non-empty and an empty receipts hash (the EVM application
+// returns an empty hash for every block without receipts).
+func ReceiptsHashFor(b *types.Block) []byte {
+	if b.Height%2 == 0 {
+		return nil
+	}
+	return hash.DoHash(append([]byte("receipts:"), b.Hash()...))
+}
+
 // ------------------------------------------------------------------ node
 
 // Emitted is one message a node put on its internal queue.
@@ -443,7 +453,7 @@ func (nt *Net) installAppHooks(n *Node) {
 	})
 	types.AddListenerForEvent(n.evsw, "verif", types.EventStringHookCommit(), func(ed types.TMEventData) {
 		d := ed.(types.EventDataHookCommit)
-		d.ResCh <- types.CommitResult{AppHash: AppHashFor(d.Block)}
+		d.ResCh <- types.CommitResult{AppHash: AppHashFor(d.Block), ReceiptsHash: ReceiptsHashFor(d.Block)}
 	})
 }
 
